@@ -372,7 +372,9 @@ def share_placement(peers, readonly_peers, shares, peers_to_shares):
 
     # Calculate share placement for the remaining peers and shares which
     # won't be preserved by existing allocations.
-    new_peers = new_peers - existing_peers - used_peers
+    # (a writable peer whose existing shares were all matched to read-only
+    # peers was dropped from new_peers above; it is still a candidate here)
+    new_peers = set(peers) - existing_peers - used_peers
 
 
     new_shares = new_shares - existing_shares - used_shares
